@@ -18,8 +18,16 @@ for v in assert ndebug; do
   par g++ -c -std=c++20 -O1 -g $D -I$REPO $REPO/compat/mem/lin_realloc.cpp -o $BUILD/r_$v.o
 done
 # pools (ASan; zones are exactly-sized heap blocks)
-PC="-std=c++17 -O1 -g -fsanitize=address -fno-omit-frame-pointer -fno-access-control -I$REPO -I$MC"
-par g++ -c $PC $H/c10_pools.cpp -o $BUILD/pools.o
+# Full build: names one private member (igris::pool::head, for the bounded free-list walk) -> -fno-access-control.
+# If that does not compile (a private member was renamed: not a property violation), fall back to the public API only.
+PC="-std=c++17 -O1 -g -fsanitize=address -fno-omit-frame-pointer -I$REPO -I$MC"
+pools_obj() {
+  if [ -z "$C10_FORCE_PUBLIC_ONLY" ] && g++ -c $PC -fno-access-control $H/c10_pools.cpp -o $BUILD/pools.o 2> $BUILD/pools_full.err; then return 0; fi
+  g++ -c $PC -DC10_PUBLIC_ONLY $H/c10_pools.cpp -o $BUILD/pools.o || return 1
+  echo "NOTE: private state names changed, free-list walk replaced by allocation probing" > $BUILD/notes.txt
+  cat $BUILD/notes.txt
+}
+par pools_obj
 par gcc -c -O1 -I$REPO $REPO/igris/dprint/dprint_func_impl.c -o $BUILD/dprint.o
 par gcc -c -O1 -I$REPO $REPO/igris/dprint/dprint_stub.c -o $BUILD/dstub.o
 parwait
